@@ -738,6 +738,7 @@ theorem pyIter_listC11 (xs : List PVal) : pyIter (.list xs) = .ok xs := by
     definitional (`dsimp`) step -/
 theorem ok_bindC11 {α β} (a : α) (f : α → PyM β) : ((Except.ok a : PyM α) >>= f) = f a := id rfl
 
+theorem truthy_list_nilC11 : truthy (.list []) = false := id rfl
 theorem pure_eq_okC11 {α} (a : α) : (pure a : PyM α) = Except.ok a := id rfl
 theorem error_bindC11 {α β} (e : PyErr) (f : α → PyM β) : ((Except.error e : PyM α) >>= f) = Except.error e := id rfl
 theorem truthy_boolC11 (b : Bool) : truthy (.bool b) = b := id rfl
